@@ -3,6 +3,7 @@
 package simpledb
 
 import (
+	dbproto "github.com/thomasjungblut/go-sstables/simpledb/proto"
 	"math"
 	"runtime"
 	"strings"
@@ -126,4 +127,92 @@ func H_C19_KillReopen() {
 	}
 	vrt.TraceBool("done", true)
 	vrt.Reach("killreopen/end")
+}
+
+// H_C19_CloseVsCompaction: Close while the compaction goroutine is in the middle of a cycle. The merge is done,
+// the reflection of its result is attempted at every synchronisation point of Close (where it has to wait for the
+// database lock it waits) - until Close has told the compactor to stop. After Close nothing stays open.
+func H_C19_CloseVsCompaction() {
+	vrt.RandPromoteBudget(0)
+	h := vNewDBEnvU(vUniverse[:1])
+	defer h.fs.Cleanup()
+	key := vUniverse[0]
+	h.withCompactor = true
+	opts := []ExtraOption{MemstoreSizeBytes(math.MaxUint64), WriteBufferSizeBytes(64), ReadBufferSizeBytes(64), CompactionRunInterval(time.Hour)}
+	vrt.Assert(h.open(opts...) == nil, "closevs/open-no-error")
+	h.put(key, []byte{1})
+	h.forceRotation()
+	h.put(key, []byte{2})
+	h.forceRotation()
+	h.runPendingNative()
+	h.db.compactedMaxSizeBytes = math.MaxUint64
+	h.db.compactionFileThreshold = 1
+	if vrt.Symbolic() {
+		var meta *dbproto.CompactionMetadata
+		h.inBackground = true
+		vrt.RunAs(2, func() {
+			m, err := executeCompaction(h.db)
+			vrt.Assert(err == nil && m != nil, "closevs/compaction-no-error")
+			meta = m
+		})
+		h.inBackground = false
+		if meta == nil {
+			return
+		}
+		reflected := false
+		n := 0
+		vrt.OnSync(func(kind string) {
+			// the compactor is told to stop with a send on its stop channel and Close waits until it has ended:
+			// from then on no cycle is running
+			if reflected || h.compactorExited || h.inBackground {
+				return
+			}
+			n++
+			if vrt.Choose(vrt.K("inj", n), 2) == 1 {
+				if vrt.TryRunAs(2, func() {
+					vrt.Assert(h.db.sstableManager.reflectCompactionResult(meta) == nil, "closevs/reflect-no-error")
+				}) {
+					reflected = true
+					vrt.Reach("closevs/reflection-ran-during-close")
+				}
+			}
+		})
+		h.close()
+		vrt.OnSync(func(kind string) {})
+	} else {
+		inj := false
+		for n := 1; n <= 24; n++ {
+			if vrt.Choose(vrt.K("inj", n), 2) == 1 {
+				inj = true
+			}
+		}
+		if inj {
+			// the real compactor goroutine does the cycle: Close queues up behind a read lock held here, then the
+			// ticker is made to fire, the compactor merges and queues up behind Close for the database lock; then
+			// the read lock is released: Close's locked section runs, then the reflection, then the rest of Close
+			// (which waits for the compactor)
+			h.db.rwLock.RLock()
+			c := h.start(func() { vrt.Assert(h.db.Close() == nil, "db/close-no-error") })
+			h.waitParkedOrDone(c)
+			h.db.compactionTicker.Reset(time.Millisecond)
+			vWaitUntil(func() bool {
+				for _, st := range vrt.GoroutineStates("simpledb.backgroundCompaction", "reflectCompactionResult") {
+					if vrt.Parked(st) {
+						return true
+					}
+				}
+				return false
+			})
+			h.db.rwLock.RUnlock()
+			<-c.done
+			if c.pnc != nil {
+				panic(c.pnc)
+			}
+		} else {
+			h.close()
+		}
+	}
+	vrt.Assert(h.fs.OpenCount() == 0, "closevs/none-left-after-close")
+	vrt.TraceBool("done", true)
+	vrt.Reach("closevs/end")
 }
